@@ -11,8 +11,10 @@ from fractions import Fraction as F
 from .. import sx
 from ..impl import run_impl
 from ..model import run_model
+from . import _c15_gen
 
 ASSUMPTIONS = [
+    _c15_gen.ASSUMPTION,
     'the distribution enters the model through the interval moments returned by the implementation (chaospy / scipy cdf, '
     'scipy.integrate.quad); the hypotheses of the theorems on these moments (m0 >= 0, x1*m0 <= m1 <= x2*m0, sum m0 = 1) are '
     'spot-checked numerically in every run (normal moments are transcendental)',
@@ -479,6 +481,7 @@ def check_weights(chk, cases, impl, keys, samples, origin=None, tag='weights'):
     """cases / impl: one-dimensional weight requests and what the implementation returned for them. Part A passes its own cases; the
     grid histories (part C) pass one pseudo case per (step, dimension) with origin(i) = the whole history up to that step."""
     mcases, midx = [], []
+    gcases, gidx = [], []
     slim = (lambda c: {k: v for k, v in c.items() if k != '_i'}) if origin is None else (lambda c: origin(c['_i']))
     for i, c in enumerate(cases):
         c['_i'] = i
@@ -522,12 +525,19 @@ def check_weights(chk, cases, impl, keys, samples, origin=None, tag='weights'):
         fa = F(c['a']) if not math.isinf(c['a']) else F(0)
         fb = F(c['b']) if not math.isinf(c['b']) else F(0)
         mcases.append((0, [c['boundary'], c['mb'], fa, fb, ivs])); midx.append((i, 'w', None))
+        # the same request for the SOURCE-DERIVED model: points (+-inf as +-2^1024) and the two moment lists
+        gcases.append((0, [c['boundary'], c['mb'], fa, fb, [(F(_c15_gen.INF) * p[0] if p[0] != 0 else qq(p[1])) for p in pts],
+                           [m_[0] for m_ in r['moments']], [m_[1] for m_ in r['moments']]])); gidx.append(i)
         finite = all(p[0] == 0 for p in pts)
         if fam == 'Uniform' and finite:
             mcases.append((1, [c['boundary'], F(c['a']), F(c['b']), [qq(p[1]) for p in pts]])); midx.append((i, 'closed', None))
         if fam == 'Triangle' and finite:
             mcases.append((2, [c['boundary'], F(c['a']), F(c['distr'][1]), F(c['b']), [qq(p[1]) for p in pts]])); midx.append((i, 'closed', None))
     mres = run_model(15, mcases)
+    gres = _c15_gen.run_gen(gcases)
+    genw = dict(zip(gidx, gres)) if gres is not None else {}
+    if gres is None:
+        chk.count('%s:generated-model driver missing (not compared)' % tag)
     by = {}
     for (i, what, rec), mr in zip(midx, mres):
         if what == 'mid':
@@ -553,6 +563,17 @@ def check_weights(chk, cases, impl, keys, samples, origin=None, tag='weights'):
         mw = by[i]['w']
         chk.traces += 1
         bad = []
+        if i in genw:
+            # source-derived model vs hand model: same exact inputs, the results must be IDENTICAL (both None or the same rationals)
+            chk.count('%s:source-derived compute_weights compared with the hand model' % tag)
+            gw = genw[i]
+            same = (gw == [0] and mw == [0]) or (isinstance(gw, list) and isinstance(mw, list) and len(gw) == 2 and len(mw) == 2 and gw[0] == 1 and mw[0] == 1
+                                                  and [sx.q(x) for x in gw[1]] == [sx.q(x) for x in mw[1]])
+            if not same:
+                chk.violation('corr:C15/generated-vs-hand-model', 'generated-model-differs', dict(sig0, n=size_class(n)), slim(c),
+                              dict(generated=str(gw)[:300], hand_model=str(mw)[:300], points=[ext_float(p) for p in pts][:40],
+                                   note='the source-derived model (coq/Gen/UQGridGen.v) and Model/UQ.wtrap disagree on this request: the source changed '
+                                        'its meaning or the hand model does not follow the code'), failing_input=False)
         for obs in ('weights', 'static'):
             iw = r[obs]
             if iw[0] == 'skip':
@@ -1601,7 +1622,9 @@ def grid_corpus():
 
 
 def run(chk):
-    chk.coq_obligations()
+    gen_info = _c15_gen.regenerate(chk)
+    chk.coq_obligations(extra_props=_c15_gen.EXTRA_PROPS)
+    gen_problem = _c15_gen.diagnose(chk, gen_info)
     rng = chk.rng
     wfix, mfix = corpus()
     gfix = grid_corpus()
@@ -1627,6 +1650,7 @@ def run(chk):
     ph['moments: model + comparison'] = round(time.time() - t0, 1); t0 = time.time()
     confirm_alone(chk, [wcases, gcases, mcases])
     ph['confirmation of violating cases in fresh processes'] = round(time.time() - t0, 1)
+    _c15_gen.finish(chk, gen_info, gen_problem)
     chk.record_cases(len(wcases) + len(mcases) + len(gcases), keys,
                      'weights: (distribution in uniform/triangle/normal, finite, half-infinite or infinite support, boundary, modified basis for uniform, '
                      'constructor argument style, refinement tree of 1..60 points (3% of the cases 65..1025) built with the grid\'s own weighted midpoint, '
